@@ -11,5 +11,6 @@ def add_trait(u):
     u.fn(S, ['trait UnprotectedStorage<T>', 'fn drop'], props='C04 C05 C12', group='trait_us', key='UnprotectedStorage::drop(default)',
          requires=[E('has', 'old(self).has(id)')],
          ensures=[E('trait.drop.gone', '!final(self).has(id)'),
+                  E('trait.drop.wf', 'old(self).us_wf() ==> final(self).us_wf()'),
                   E('trait.drop.frame', '(forall|j: Index| #![trigger final(self).has(j)] j != id ==> final(self).has(j) == old(self).has(j)) && (forall|j: Index| #![trigger final(self).val(j)] j != id ==> final(self).val(j) == old(self).val(j))'),
                   E('trait.drop.events', 'final(self).log() == old(self).log() + old(self).ev_remove(id) && (' + EV_FRAME + ')', 'C12')])
